@@ -197,6 +197,18 @@ def check(prog, rep, tier):
                             rep.bad("C15.capacity-writers", f"{ctx}.{f.src_name}", f"capacity = {nshow(e.value)}",
                                     f"capacity is set to {nshow(e.value)}; outside construction/loading it may only be multiplied by the expansion rate", e.where())
                             okw = False
+        # ... and a loader sets it to the number of buckets the input really holds (else every entry sits in a bucket it does not map to)
+        from .C05 import emissions, footer_of, loaded_capacity_problem, loaded_obj, reader_paths
+        _, em_ = emissions(prog, ctx)
+        ft_ = footer_of(em_)
+        for rn in ("_load", "frombytes"):
+            rf_, rps = reader_paths(prog, ctx, rn)
+            for p in rps:
+                pb = loaded_capacity_problem(p, loaded_obj(rf_, p), ctx, ft_[1]) if ft_ is not None else None
+                if pb:
+                    rep.bad("C15.capacity-writers", f"{ctx}.{rn}", pb[0], pb[1] + ": after loading, stored fingerprints do not sit in the buckets they map to for that capacity", rf_.where())
+                    okw = False
+                    break
         if okw:
             rep.ok("C15.capacity-writers", ctx)
     # ---------------------------------------------------------------- no zero bins (counting)
